@@ -95,6 +95,8 @@ def run(ctx):
     disagreements = 0
     samples = []
     verdicts = {"acc": 0, "rej": 0, "na": 0}
+    layouts = {}
+    fresh_jobs = []
 
     def internal(msg):
         raise C.BuildError("C18 framework inconsistency (no verdict): " + msg)
@@ -107,17 +109,27 @@ def run(ctx):
         evals += 1
         if kind == "x":
             (_, _, mode, regpw, pw, s1, s2, g, p, b, srpB, random,
-             refV, refB, icls, iA, iM1, rverdict, expect, tags) = c
+             refV, refB, icls, iA, iM1, rverdict, expect, tags, lay, intact) = c
             mcls, mA, mM1, mV, mB, mverdict = m
-            inputs = ["x", regpw, pw, s1, s2, g, p, b, srpB, random]
+            inputs = ["x", regpw, pw, s1, s2, g, p, b, srpB, random, lay]
+            layouts[lay] = layouts.get(lay, 0) + 1
             key = "exchange:" + digest(inputs)
             if mV != refV or mB != refB:
                 internal("reference server (Go) and model server (Coq) disagree on v or B in case %s" % cid)
             exchanges += 1
             verdicts[rverdict] = verdicts.get(rverdict, 0) + 1
-            base = {"kind": "x", "inputs": inputs, "tags": tags, "password": show_pw(pw), "registered_password": show_pw(regpw)}
+            base = {"kind": "x", "inputs": inputs, "tags": tags, "password": show_pw(pw), "registered_password": show_pw(regpw),
+                    "layout": lay}
             agree = (icls, iA, iM1) == (mcls, mA, mM1)
-            if expect != rverdict:
+            fresh_jobs.append((cid, inputs, (icls, iA, iM1), key, base))
+            if intact != "intact":
+                C.violation(ctx, key,
+                            "getInputCheckPassword wrote into the caller's byte slices (layout %s: salts/B/P/random as windows of a shared "
+                            "array or with spare capacity); server verdict %s, expected %s; tags %s" % (lay, rverdict, expect, tags),
+                            dict(base, expected={"verdict": expect, "class": mcls, "A": mA, "M1": mM1, "inputs": "intact"},
+                                 got={"verdict": rverdict, "class": icls, "A": iA, "M1": iM1, "inputs": intact},
+                                 oracle="backing arrays before/after + reference SRP server"))
+            elif expect != rverdict:
                 # direct oracle: the reference server's verdict on the implementation's answer
                 C.violation(ctx, key,
                             "SRP answer for the %s password is %s by the reference server (class %s; tags %s)"
@@ -141,11 +153,18 @@ def run(ctx):
                 samples.append({"case": cid, "group": tags.split(",")[0], "tags": tags, "password": show_pw(pw),
                                 "A[0:8]": iA[:16], "M1": iM1, "server": rverdict, "model_M1": mM1})
         elif kind == "r":
-            (_, _, mode, pw, srpB, flag, s1, s2, g, P, random, icls, iA, iM1, expect, tag) = c
+            (_, _, mode, pw, srpB, flag, s1, s2, g, P, random, icls, iA, iM1, expect, tag, lay, intact) = c
             mcls, mA, mM1 = m
-            inputs = ["r", pw, srpB, flag, s1, s2, g, P, random]
+            inputs = ["r", pw, srpB, flag, s1, s2, g, P, random, lay]
+            layouts[lay] = layouts.get(lay, 0) + 1
             key = "client:" + digest(inputs)
-            base = {"kind": "r", "inputs": inputs, "tags": tag, "password": show_pw(pw)}
+            base = {"kind": "r", "inputs": inputs, "tags": tag, "password": show_pw(pw), "layout": lay}
+            fresh_jobs.append((cid, inputs, (icls, iA, iM1), key, base))
+            if intact != "intact":
+                C.violation(ctx, key, "getInputCheckPassword on '%s' wrote into the caller's byte slices (layout %s)" % (tag, lay),
+                            dict(base, expected={"class": expect, "A": mA, "M1": mM1, "inputs": "intact"},
+                                 got={"class": icls, "A": iA, "M1": iM1, "inputs": intact}, oracle="backing arrays before/after"))
+                continue
             if tag.startswith("recorded vector"):
                 if mM1 != RECORDED_M1:
                     internal("the model does not reproduce the M1 recorded from Telegram")
@@ -167,16 +186,19 @@ def run(ctx):
                 nontrivial.add((pw, srpB, flag, s1, s2, g, P, random))
         elif kind == "t":
             (_, _, mode, pw, apkind, srpB, srpid, s1, s2, g, P, b, regpw,
-             icls, iid, iA, iM1, rverdict, expect, expect_verdict, tag) = c
+             icls, iid, iA, iM1, rverdict, expect, expect_verdict, tag, lay, intact) = c
             mcls, mid = m
-            inputs = ["t", pw, apkind, srpB, srpid, s1, s2, g, P, b, regpw]
+            inputs = ["t", pw, apkind, srpB, srpid, s1, s2, g, P, b, regpw, lay]
+            layouts[lay] = layouts.get(lay, 0) + 1
             key = "exported:" + digest(inputs)
             base = {"kind": "t", "inputs": inputs, "tags": tag, "password": show_pw(pw), "registered_password": show_pw(regpw),
                     "password_hex": pw, "registered_password_hex": regpw}
             if mcls != expect:
                 internal("model class %s but harness expects %s in case %s" % (mcls, expect, cid))
             bad = None
-            if icls != expect:
+            if intact != "intact":
+                bad = "the caller's byte slices were written to (layout %s); verdict %s, expected %s" % (lay, rverdict, expect_verdict)
+            elif icls != expect:
                 bad = "class %s, expected %s" % (icls, expect)
             elif icls == "srp" and iid != srpid:
                 bad = "srp_id not copied"
@@ -187,13 +209,24 @@ def run(ctx):
                        % ("right" if pw == regpw else "wrong", "accepted" if rverdict == "acc" else "rejected", show_pw(regpw)))
             if bad:
                 C.violation(ctx, key, "telegram.GetInputCheckPassword(%r) (%s): %s" % (show_pw(pw), tag, bad),
-                            dict(base, expected={"class": expect, "srpid": srpid, "verdict": expect_verdict},
-                                 got={"class": icls, "srpid": iid, "verdict": rverdict}, oracle="reference SRP server / model class"))
+                            dict(base, expected={"class": expect, "srpid": srpid, "verdict": expect_verdict, "inputs": "intact"},
+                                 got={"class": icls, "srpid": iid, "verdict": rverdict, "inputs": intact},
+                                 oracle="reference SRP server / model class / backing arrays before/after"))
             else:
                 nontrivial.add((pw, regpw, apkind, srpB, s1, s2))
                 if icls == "srp":
                     exchanges += 1
                     verdicts[rverdict] = verdicts.get(rverdict, 0) + 1
+
+    # history independence: the answers above come from ONE long-lived process that served all cases (16 goroutines);
+    # with the random bytes injected the answer is a function of the inputs, so a fresh process must give the same bytes
+    fresh_checked, fresh_diff = history_independence(ctx, hb, fresh_jobs)
+
+    # report wrong verdicts / classes before violations that only concern written-to inputs
+    def weight(v):
+        e, g = (v[2] or {}).get("expected", {}), (v[2] or {}).get("got", {})
+        return 0 if any(k in e and k in g and e[k] != g[k] for k in ("verdict", "class")) else 1
+    ctx.violations.sort(key=weight)
 
     cov = C.proof_coverage(
         pr, "make -f Makefile.coq theories/Props/C18.vo (coqc 8.16.1) in /verif/coq",
@@ -213,8 +246,12 @@ def run(ctx):
                  "passwords over ASCII/Latin-1/Cyrillic/CJK/Hebrew/non-BMP/invalid UTF-8; salts 0..64 bytes; wrong passwords; "
                  "through the exported telegram.GetInputCheckPassword: passwords with leading/trailing/only white space "
                  "(space, tab, CR, LF, CRLF, VT, FF, U+0085, U+00A0, U+2003, U+3000) as the right password (server holds the verifier of "
-                 "the exact string: accept), as a near-miss of the registered one (reject) and alone (an SRP answer, not the no-password answer)",
+                 "the exact string: accept), as a near-miss of the registered one (reject) and alone (an SRP answer, not the no-password answer); "
+                 "byte-slice inputs (salt1, salt2, srp_B, p, random) handed in as exact separate slices, with spare capacity, or as windows of one "
+                 "guarded array in four orders, whole backing arrays compared before/after; every x/r case re-run in a fresh process and "
+                 "compared with the answer of the long-lived process (history independence)",
          "samples": samples, "input_distribution": stats, "disagreements_checked": disagreements,
+         "input_layouts": layouts, "fresh_process_reruns": fresh_checked, "fresh_process_differences": fresh_diff,
          "exchanges_judged_by_reference_server": exchanges, "reference_server_verdicts": verdicts,
          "projection": "result class (answer / no-password / error / panic), A bytes, M1 bytes, srp_id, accept/reject by the reference server; "
                        "error texts not compared"})
@@ -222,6 +259,32 @@ def run(ctx):
         "SHA-256 returns 32 bytes; big.Int.Exp(b, e, m) = b^e mod m for e >= 0, m > 0; big.Int.Bytes/SetBytes are big-endian",
         "server-side parameters: 1 < p < 2^2048 sent as 256 bytes (2fa.go itself validates neither p nor g)",
         "wrong password rejected: only under injectivity of SHA-256 on the two compared strings and S_client <> S_server (C18_wrong_password_partial)"])
+
+
+def history_independence(ctx, hb, jobs):
+    from concurrent.futures import ThreadPoolExecutor
+
+    def one(job):
+        cid, inputs, seen, key, base = job
+        rc, out = C.sh([hb, "one"] + inputs, env=ctx.env(), timeout=600)
+        if rc != 0:
+            raise C.BuildError("harness one failed on case %s: %s" % (cid, out[-500:]))
+        f = out.rstrip("\n").split("\t")
+        return job, (f[0], f[1], f[2])
+
+    diff = 0
+    with ThreadPoolExecutor(max_workers=NPROC) as ex:
+        for (cid, inputs, seen, key, base), got in ex.map(one, jobs):
+            if got != seen:
+                diff += 1
+                C.violation(ctx, key,
+                            "getInputCheckPassword answers differently in a process that served other calls before "
+                            "(class %s, M1 %s) than in a fresh process (class %s, M1 %s): the answer depends on earlier calls"
+                            % (seen[0], seen[2][:16], got[0], got[2][:16]),
+                            dict(base, expected={"class": got[0], "A": got[1], "M1": got[2]},
+                                 got={"class": seen[0], "A": seen[1], "M1": seen[2]},
+                                 oracle="same inputs in a fresh process", history_dependent=True, no_failing_input=True))
+    return len(jobs), diff
 
 
 def replay(ctx, path):
@@ -237,11 +300,11 @@ def replay(ctx, path):
     exp = obj.get("expected", {})
     kind = obj["inputs"][0]
     if kind == "x":
-        got = {"class": f[0], "A": f[1], "M1": f[2], "verdict": f[3]}
+        got = {"class": f[0], "A": f[1], "M1": f[2], "verdict": f[3], "inputs": f[4]}
     elif kind == "r":
-        got = {"class": f[0], "A": f[1], "M1": f[2]}
+        got = {"class": f[0], "A": f[1], "M1": f[2], "inputs": f[3]}
     else:
-        got = {"class": f[0], "srpid": f[1], "verdict": f[4]}
+        got = {"class": f[0], "srpid": f[1], "verdict": f[4], "inputs": f[5]}
         if exp.get("class") != "srp":
             exp = {"class": exp.get("class")}
     bad = [k for k in exp if k in got and exp[k] != got[k]]
